@@ -310,6 +310,8 @@ class Driver:
             name = SimFS.PREFIX + 'src%d' % op['blob']
             self.fs.put(name, data)
             return name
+        if op.get('tail'):
+            data = bytes(data) + b'\xa5' * op['tail']       # beyond the length given to add_fp: not part of the file
         d = SimDisk('blob%d' % op['blob'], data, self.world.next_seq)
         d.keep_log = False
         f = SimFile(d, 'rb')
